@@ -108,3 +108,42 @@ def output_raises(m, oname):
             f = st.exc.func if isinstance(st.exc, ast.Call) else st.exc
             out.append(dotted(f) or "?")
     return out
+
+
+def reachable_avoiding_rows(m, row_pred, start=None):
+    """states reachable from start without traversing a row satisfying row_pred"""
+    start = start or m.initial
+    seen = {start}
+    work = [start]
+    while work:
+        s = work.pop()
+        for row in m.rows_from(s):
+            if row_pred(row):
+                continue
+            if row.enter not in seen:
+                seen.add(row.enter)
+                work.append(row.enter)
+    return seen
+
+
+def held_states(m, acquire_suffix, release_input):
+    """states in which the resource may be held at the server: reachable through a row whose outputs call something
+    ending in acquire_suffix, without having passed a row on release_input since"""
+    acq = [r for r in m.rows.values() if any(c.endswith(acquire_suffix) for c in row_call_names(m, r))]
+    seen = set()
+    work = [r.enter for r in acq]
+    while work:
+        s = work.pop()
+        if s in seen:
+            continue
+        seen.add(s)
+        for row in m.rows_from(s):
+            if row.inp == release_input:
+                continue
+            work.append(row.enter)
+    return seen
+
+
+def opened_states(m, suffix):
+    """states entered by rows whose outputs call something ending in suffix"""
+    return {r.enter for r in m.rows.values() if any(c.endswith(suffix) for c in row_call_names(m, r))}
